@@ -74,7 +74,7 @@ CLAIMS['C14'] = dict(
        'right-orthogonal cores; the pivot core whose entries are squared for the first marginal carries a power-of-two '
        'normalisation (exponent-ledger facet); with unique=True every returned row set is a row subset of an np.unique result '
        '(distinct-rows facet); the LHS remainder is drawn without replacement and columns have length m. '
-       'Inside the samplers a carried interface whose bond is one rank on one path and another rank on another path is a contraction mismatch (join expansion); truth tests of multi-element arrays (ndarray shape variant of sample_tt) are reported.',
+       'Inside the samplers a carried interface whose bond is one rank on one path and another rank on another path is a contraction mismatch (join expansion); truth tests of multi-element arrays (ndarray shape variant of sample_tt) are reported; the marginal table of sample is filled by sums over the mode axis (no other reduction kind).',
   note='Not decided: that the conditionals multiply to the tensor entry (the distribution itself), uniqueness in '
        'distribution, goodness of fit.')
 CLAIMS['C20'] = dict(
